@@ -42,9 +42,9 @@ INVALID_CLASSES = ["off_curve_random", "x_ge_p", "y_ge_p", "zero_zero", "on_twis
 
 def plan(tier, seed):
     q = tier == "quick"
-    jobs = [{"name": "wrap%02d" % i, "spec": {"kind": "wrap", "n": 80 if q else 900, "i": i}} for i in range(NSH)]
-    jobs += [{"name": "dflt%02d" % i, "spec": {"kind": "default", "n": 40 if q else 400, "i": i}} for i in range(8)]
-    jobs += [{"name": "unwrap%02d" % i, "spec": {"kind": "unwrap", "n": 80 if q else 800, "i": i}} for i in range(8)]
+    jobs = [{"name": "wrap%02d" % i, "spec": {"kind": "wrap", "n": 80 if q else 6000, "i": i}} for i in range(NSH)]
+    jobs += [{"name": "dflt%02d" % i, "spec": {"kind": "default", "n": 40 if q else 2500, "i": i}} for i in range(8)]
+    jobs += [{"name": "unwrap%02d" % i, "spec": {"kind": "unwrap", "n": 80 if q else 5000, "i": i}} for i in range(8)]
     return jobs
 
 
